@@ -11,7 +11,7 @@
      - evaluation of literal words (eval_literal_words, eval_list_command). *)
 From Molt Require Import Model.Base Model.Tokenizer Model.ListSyn Model.Script Model.Parser.
 From Molt Require Import Model.Value Model.State Model.Eval.
-From Molt Require Import Proofs.ListSynFacts.
+From Molt Require Import Proofs.BaseFacts Proofs.ListSynFacts.
 From Coq Require Import Lia ZifyBool ZifyN.
 
 Arguments N.eqb : simpl never.
@@ -73,7 +73,7 @@ Proof.
   - destruct w; [|cbn in Hn; lia].
     cbn in Hs. apply Nat.eqb_eq in Hs. subst d. cbn [app parse_braced_body].
     change (c_rbrace =? c_lbrace) with false. change (c_rbrace =? c_rbrace) with true. cbn iota.
-    rewrite app_nil_r. reflexivity.
+    rewrite rev_fast_eq, app_nil_r. reflexivity.
   - destruct w as [|c r].
     + apply (IH [] d acc rest); [cbn; lia|assumption].
     + cbn [brace_ok] in Hs. cbn [app parse_braced_body].
